@@ -156,14 +156,12 @@ Section Opened2.
   Proof.
     intros o s1 s2 H. unfold parse_opened.
     set (d := match o with OData d _ => d | _ => [] end).
-    set (f := match o with ONone => NoFault | OData _ f => f | ODir => FailAt 0 end).
+    set (f := match o with OData _ f => f | ODir => FailAt 0 end).
     assert (E1 : match o with
-                 | ONone => parse_stream NM cb1 [] NoFault s1
                  | OData d f => parse_stream NM cb1 d f s1
                  | ODir => parse_stream NM cb1 [] (FailAt 0) s1
                  end = parse_stream NM cb1 d f s1) by (destruct o; reflexivity).
     assert (E2 : match o with
-                 | ONone => parse_stream NM cb2 [] NoFault s2
                  | OData d f => parse_stream NM cb2 d f s2
                  | ODir => parse_stream NM cb2 [] (FailAt 0) s2
                  end = parse_stream NM cb2 d f s2) by (destruct o; reflexivity).
